@@ -1,9 +1,8 @@
 #!/bin/sh
-# run every claimed check (quick tier) sequentially; summary in /tmp/run_all.log
+# run every claimed check (quick tier), J at a time (default 3); summary in /tmp/run_all.log
 cd /verif
+J=${J:-3}
 : > /tmp/run_all.log
-for p in $(cat claimed.txt); do
-  ./check $p > /tmp/run_all_$p.log 2>&1
-  echo "$p exit=$? $(grep -c KNOWN-FINDING /tmp/run_all_$p.log) known; $(grep '^RESULT' /tmp/run_all_$p.log)" >> /tmp/run_all.log
-done
+cat claimed.txt | xargs -P $J -I{} sh -c './check {} > /tmp/run_all_{}.log 2>&1; echo "{} exit=$? $(grep -c KNOWN-FINDING /tmp/run_all_{}.log) known; $(grep "^RESULT" /tmp/run_all_{}.log)" >> /tmp/run_all.log'
+sort -o /tmp/run_all.log /tmp/run_all.log
 echo DONE >> /tmp/run_all.log
